@@ -670,6 +670,10 @@ def parameters_configuration(
     >>> parameters_configuration({'1': ['a', 'b'], '2': ['c']})
     [{'1': 'a', '2': 'c'}, {'1': 'b', '2': 'c'}]
     """
+    if not algo_parameters:
+        # No parameter: a single, empty, combination.
+        return [{}]
+
     # We sort by parameter's name so that combinations are always produced in the same
     # order if we run the batch several times.
     param_names, param_values = zip(
